@@ -111,6 +111,23 @@ Theorem c12_pending_sweep_complete :
 Proof. exact pending_sweep_complete. Qed.
 Print Assumptions c12_pending_sweep_complete.
 
+(** deadlines that only time can trigger arm a deferred re-sync: a task still inside its
+    pending timeout, a task being deleted and still inside the force-delete timeout *)
+Theorem c12_pending_armed :
+  forall cfg s j tasks now s' j' ok,
+    handle_pending cfg s j tasks now = (s', j', ok) -> 0 < pending_timeout cfg j ->
+    forall p, In p tasks -> pod_finish_ts p = None -> p_cont_start p = None ->
+      now < p_created p + pending_timeout cfg j -> ps_armed s' = true.
+Proof. exact pending_armed. Qed.
+Print Assumptions c12_pending_armed.
+
+Theorem c12_force_armed :
+  forall cfg s j tasks now s' j' ok,
+    handle_force cfg s j tasks now = (s', j', ok) -> 0 < force_timeout cfg -> j_forbid_force j = false ->
+    forall p t, In p tasks -> p_deletion p = Some t -> now < t + force_timeout cfg -> ps_armed s' = true.
+Proof. exact force_armed. Qed.
+Print Assumptions c12_force_armed.
+
 (** Non-vacuity: a pending Pod past its timeout is deleted and its ref is marked Killed /
     PendingTimeout (counts as a finished attempt once the Pod is gone). *)
 Open Scope string_scope.
